@@ -35,7 +35,7 @@ import pyben
 
 from torrentfile.hasher import FileHasher
 from torrentfile.mixins import ProgMixin
-from torrentfile.utils import ArgumentError, MissingPathError
+from torrentfile.utils import ArgumentError, MissingPathError, hash_bytes
 
 SHA1 = 20
 SHA256 = 32
@@ -374,7 +374,7 @@ class FeedChecker(ProgMixin):
         """
         self.piece_length = checker.piece_length
         self.paths = checker.paths
-        self.pieces = checker.info["pieces"]
+        self.pieces = hash_bytes(checker.info["pieces"])
         self.fileinfo = checker.fileinfo
         self.piece_map = {}
         self.index = 0
@@ -616,9 +616,9 @@ class HashChecker(ProgMixin):
             self.length = self.fileinfo[self.index]["length"]
             self.root_hash = self.fileinfo[self.index]["pieces root"]
             if self.length > self.piece_length:
-                self.pieces = self.piece_layers[self.root_hash]
+                self.pieces = hash_bytes(self.piece_layers[self.root_hash])
             else:
-                self.pieces = self.root_hash
+                self.pieces = hash_bytes(self.root_hash)
             path = self.paths[self.index]
             self.progbar = self.get_progress_tracker(self.length, path)
             self.count = 0
